@@ -122,6 +122,8 @@ def generate(seed, tier, k):
     if case == "uniaxial" and doc["bc"].get("sym") is True and not lagrange and pick(seed, "translated-body", 4) == 0:
         # the body somewhere else in space: different offsets along every axis
         doc["mesh"]["translate"] = [0.5, -0.7, 0.2][:dim] if pick(seed, "translated-body-where", 2) else [-1.25, 1.0, 3.5][:dim]
+    if case == "uniaxial" and doc["bc"].get("sym") is True and doc["bc"].get("axis", 0) != 0 and not lagrange and "translate" not in doc["mesh"] and not doc["mesh"].get("a", [0])[0] and pick(seed, "rot90", 3) == 0:
+        doc["mesh"]["rot90"] = True
     fine = pick(seed, "fine-ramp", 5)
     if fine in (0, 1) and case != "patch":
         # a finely resolved section at the end of the ramp (increments of a few millionths of the
@@ -150,6 +152,7 @@ def generate(seed, tier, k):
         # homogeneous, no oracle), then the clamp is released and the ramp continues
         doc["c09"]["release_clamp"] = True
         doc["mesh"].pop("translate", None)  # (dof.uniaxial puts its symmetry planes through the origin)
+        doc["mesh"].pop("rot90", None)
         doc["c09"].pop("resume", None)
         doc["faults"] = [f for f in doc["faults"] if not f["kind"].startswith("callback")]
         doc["c09"]["twin"] = False
